@@ -98,6 +98,12 @@ struct PA { x: DepX }
 #[derive(TS)]
 #[ts(export_to = "pshared.ts")]
 struct PB { w: DepW, l: Leaf }
+// the shared file spelled with a `..` detour in `export_to`
+#[derive(TS)]
+#[ts(export_to = "dots/../shared.ts")]
+struct ShDots { l: Leaf }
+#[derive(TS)]
+struct UsesDots { d: ShDots, a: ShA }
 #[derive(TS)]
 struct CarAliased { wheels: Wheels, seats: Seats, engine: MaybeEngine }
 
@@ -166,6 +172,7 @@ fn universe() -> Vec<Entry> {
         entry::<Dflt<ts_rs::Dummy>>("Dflt<Dummy>"),
         entry::<Wheel>("Wheel"), entry::<Seat>("Seat"), entry::<Engine>("Engine"), entry::<CarAliased>("CarAliased"),
         entry::<DepW>("DepW"), entry::<DepX>("DepX"), entry::<PA>("PA"), entry::<PB>("PB"),
+        entry::<ShDots>("ShDots"), entry::<UsesDots>("UsesDots"),
     ]
 }
 
